@@ -17,6 +17,16 @@ CODE = "7-purple-sausages"
 THIRD = "cccccccccc"
 
 
+def payload(side, n):
+    """the n-th application message of client `side` in an honest run: distinct per (side, index); B's second message is the EMPTY
+    byte string (a legal payload whose ciphertext is exactly nonce+MAC long), the others differ in length"""
+    if isinstance(side, bytes):
+        side = side.decode()
+    if side == "B" and n == 1:
+        return b""
+    return b"msg-%s-%d" % (side.encode(), n) + b"." * (n * 3)
+
+
 class Sim:
     def __init__(self, modes=("set", "set"), nmsg=(1, 1), delegated=(True, True), adversary=(), eager=True,
                  welcome_error=False, wrong_code=False, max_opens=3, appids=("appid", "appid"), auto_get=True, getters=False, helper_calls=False):
@@ -199,7 +209,7 @@ class Sim:
             else:
                 c._call("helper:get_word_completions", hp.get_word_completions, "")
         elif kind == "send":
-            c.api("send_message", b"msg-%s-%d" % (act[1].encode(), a["sent"]))
+            c.api("send_message", payload(act[1], a["sent"]))
             a["sent"] += 1
         elif kind == "get":
             what = act[2]
@@ -258,6 +268,22 @@ class Sim:
                 if c.conn is None and c.can_connect():
                     c.open()
             self.world.settle()
+
+    def complete(self, close=False):
+        """honest completion: the applications go on with whatever an honest run still has to do (enter the code, send the remaining messages;
+        close only if asked), everything owed is delivered, repeatedly until nothing more happens"""
+        pol = honest_policy(close=close)
+        for _ in range(5):
+            n = 0
+            for _ in range(200):
+                a = pol(self, self.enabled())
+                if a is None:
+                    break
+                self.do(a)
+                n += 1
+            self.settle()
+            if not n:
+                break
 
     def canonical(self, policy):
         """run a deterministic policy to completion; returns the action list"""
